@@ -132,6 +132,18 @@ func checkC09(r *Result) {
 				okEvery, why = iterationOfInnermostLoopPasses(ar, addInstr)
 			}
 			r.check(okEvery, "LIN-PART", "(x/oracle/keeper.Keeper).AllocateRewards # every reporter of every aggregate adds its power to totalPower", pos(calc.Pos()), why)
+			// ... and writes its table entry back (the table maps to struct values: an update made on the
+			// looked-up copy is lost unless the entry is stored again)
+			okBack, whyBack := false, "no addition of the reporter's power found"
+			if addInstr != nil {
+				if h := innermostLoopHeader(ar, addInstr.Block()); h != nil {
+					okBack, whyBack = iterationPasses(ar, h, func(in ssa.Instruction) bool {
+						mu, ok := in.(*ssa.MapUpdate)
+						return ok && strings.Contains(mu.Map.Type().String(), "ReportersReportCount") && strings.HasSuffix(tm.Of(mu.Key).Op, "AggregateReporter.Reporter")
+					})
+				}
+			}
+			r.check(okBack, "TABLE", "(x/oracle/keeper.Keeper).AllocateRewards # every reporter of every aggregate stores its table entry under its address", pos(calc.Pos()), whyBack)
 		}
 		// TABLE: stores into ReportersReportCount fields
 		stores := map[string][]string{}
@@ -778,4 +790,70 @@ func iterationOfInnermostLoopPasses(fn *ssa.Function, in ssa.Instruction) (bool,
 		}
 	}
 	return true, fmt.Sprintf("loop header block %d", h.Index)
+}
+
+// innermostLoopHeader: the header of the innermost loop that contains block b (nil when b is in no loop).
+func innermostLoopHeader(fn *ssa.Function, b *ssa.BasicBlock) *ssa.BasicBlock {
+	var h *ssa.BasicBlock
+	for _, c := range loopHeaders(fn) {
+		if !c.Dominates(b) {
+			continue
+		}
+		// b must be able to reach c again (be inside c's loop)
+		seen := map[*ssa.BasicBlock]bool{}
+		work := append([]*ssa.BasicBlock{}, b.Succs...)
+		inside := b == c
+		for len(work) > 0 && !inside {
+			x := work[len(work)-1]
+			work = work[:len(work)-1]
+			if seen[x] {
+				continue
+			}
+			seen[x] = true
+			if x == c {
+				inside = true
+				break
+			}
+			if c.Dominates(x) {
+				work = append(work, x.Succs...)
+			}
+		}
+		if inside && (h == nil || h.Dominates(c)) {
+			h = c
+		}
+	}
+	return h
+}
+
+// iterationPasses: every path from loop header h around a back edge to h passes an instruction matched by pred.
+func iterationPasses(fn *ssa.Function, h *ssa.BasicBlock, pred func(ssa.Instruction) bool) (bool, string) {
+	if len(h.Instrs) == 0 {
+		return false, "empty loop header"
+	}
+	first := h.Instrs[0]
+	ps := AnalyzePaths(fn, []Atom{{Name: "passed", Event: func(in ssa.Instruction) (bool, int8) {
+		if in == first {
+			return true, F
+		}
+		if pred(in) {
+			return true, T
+		}
+		return false, U
+	}}})
+	n := 0
+	for _, p := range h.Preds {
+		if !h.Dominates(p) {
+			continue
+		}
+		n++
+		for _, s := range ps.At(p.Instrs[len(p.Instrs)-1]) {
+			if int8(s[0]) != T {
+				return false, fmt.Sprintf("an iteration reaches the back edge (block %d) without it", p.Index)
+			}
+		}
+	}
+	if n == 0 {
+		return false, "no back edge"
+	}
+	return true, fmt.Sprintf("%d back edge(s)", n)
 }
